@@ -70,6 +70,16 @@ where
                 )),
             });
         }
+        if start == 0 {
+            // The parallel path loads the fee recipient before any transaction runs and reports a
+            // database error on it at index 0. Do the same when the whole block is executed
+            // sequentially, so the failing index does not depend on the execution path. After a
+            // parallel prefix the account is already cached.
+            self.state
+                .lock()
+                .basic_ref(self.env.beneficiary)
+                .map_err(|e| GrevmError { txid: 0, error: EVMError::Database(e) })?;
+        }
         if start == self.block_size {
             return Ok(());
         }
